@@ -2,7 +2,7 @@
 
 use crate::gram::load_str;
 use crate::modgen::{as_loaded, wrap, Gen, ModCfg};
-use crate::refgraph::{edges, visit_refs, Ns};
+use crate::refgraph::{edges, visit_refs, Index, Ns};
 use a2lfile::A2lObjectName as _;
 use a2lfile::A2lObjectNameSetter as _;
 use a2lfile::{A2lError, A2lFile};
@@ -86,6 +86,89 @@ fn sort_invariance(rec: &mut Recorder, a2l: &A2lFile, report: &[A2lError], origi
             &format!("{origin}: {} entries before, {} after sort(); only before: {only_a:?}; only after: {only_b:?}", a.len(), b.len()),
             witness(a2l, origin),
         );
+    }
+}
+
+fn removed_helper_case(rng: &mut Rng, rec: &mut Recorder, a2l: &A2lFile) {
+    use a2lfile::A2lObjectName;
+    let mut b = a2l.clone();
+    let m = &mut b.project.module[0];
+    let kind = rng.below(5);
+    let how = rng.below(3);
+    macro_rules! remove_from {
+        ($list:expr, $ns:expr, $label:expr) => {{
+            let len = $list.len();
+            if len == 0 {
+                return;
+            }
+            let idx = match rng.below(3) {
+                0 => len - 1,
+                1 => 0,
+                _ => rng.below(len),
+            };
+            let name = $list[idx].get_name().to_string();
+            let pos = if idx + 1 == len { "last" } else if idx == 0 { "first" } else { "middle" };
+            match how {
+                0 => {
+                    $list.swap_remove_idx(idx);
+                }
+                1 => {
+                    $list.swap_remove(&name);
+                }
+                _ => {
+                    if idx + 1 == len {
+                        $list.pop();
+                    } else {
+                        $list.swap_remove_idx(idx);
+                    }
+                }
+            }
+            (name, $ns, format!("{} {} ({}, {})", $label, pos, ["swap_remove_idx", "swap_remove", "pop/swap_remove_idx"][how], len))
+        }};
+    }
+    let (name, ns, label) = match kind {
+        0 => remove_from!(m.unit, Ns::Unit, "UNIT"),
+        1 => remove_from!(m.compu_method, Ns::Cm, "COMPU_METHOD"),
+        2 => remove_from!(m.record_layout, Ns::Rl, "RECORD_LAYOUT"),
+        3 => remove_from!(m.function, Ns::Func, "FUNCTION"),
+        _ => remove_from!(m.group, Ns::Grp, "GROUP"),
+    };
+    rec.eval();
+    rec.bump(&format!("removed_helper.{}", label.split(' ').take(2).collect::<Vec<_>>().join(".")));
+    let Some(rep) = monitored_check(rec, &b, &format!("helper removed through the list API: {label} {name}")) else { return };
+    // covered references that still name the removed element
+    let dangling: Vec<_> = edges(&b.project.module[0]).into_iter().filter(|e| e.ctx.covered && e.ctx.ns == ns && e.target == name).collect();
+    let named = rep.iter().any(|r| matches!(r, A2lError::CrossReferenceError { target_name, .. } if target_name == &name));
+    if !dangling.is_empty() && !named {
+        rec.violation(
+            &format!("reference to an element removed through the list API is not reported: {}", dangling[0].ctx.site),
+            &format!("{label} {name} removed; {} covered reference(s) still name it, first at {} of {} {}; report: {:?}", dangling.len(), dangling[0].ctx.site, dangling[0].ctx.kind, dangling[0].ctx.rname, rep.iter().take(3).map(describe).collect::<Vec<_>>()),
+            witness(&b, &label),
+        );
+    }
+    if dangling.is_empty() && named {
+        rec.violation(
+            "check() names a removed element that nothing refers to",
+            &format!("{label} {name}"),
+            witness(&b, &label),
+        );
+    }
+    // a name that is still present must never be reported as missing
+    let idx = Index::build(&b.project.module[0]);
+    for r in &rep {
+        if let A2lError::CrossReferenceError { target_name, .. } = r {
+            if target_name != &name && !target_name.starts_with("THIS.") {
+                let exists = [Ns::Obj, Ns::Cm, Ns::Tab, Ns::Td, Ns::Unit, Ns::Rl, Ns::Func, Ns::Grp, Ns::Trf, Ns::Seg].iter().any(|n| idx.resolve(*n, target_name).is_some());
+                if exists {
+                    rec.violation(
+                        "after a list edit check() reports an existing element as missing",
+                        &format!("{label} {name} removed; report: {}", describe(r)),
+                        witness(&b, &label),
+                    );
+                    break;
+                }
+            }
+        }
     }
 }
 
@@ -187,6 +270,12 @@ pub fn run(args: &Args, rec: &mut Recorder) {
                         witness(&a2l, "fully consistent module"),
                     );
                     return None;
+                }
+                // (c0) a helper removed through the list API (last / first / middle position; by index,
+                // by name, pop): check() must not panic and must name the removed element wherever a
+                // covered reference still points at it
+                if rng.chance(1, 2) {
+                    removed_helper_case(rng, rec, &a2l);
                 }
                 // (c) single corruptions of every covered reference
                 let es = edges(&a2l.project.module[0]);
@@ -371,6 +460,9 @@ pub fn run(args: &Args, rec: &mut Recorder) {
     rec.floor("totality.odd.no_mod_par", 1);
     for site in COVERED_SITES {
         rec.floor(&format!("corrupted.{site}"), 1);
+    for k in ["UNIT", "COMPU_METHOD", "RECORD_LAYOUT", "FUNCTION", "GROUP"] {
+        rec.floor(&format!("removed_helper.{k}.last"), 3);
+    }
     }
 }
 
